@@ -237,7 +237,10 @@ func emitH1(o obs) string {
 	if causeLabel(o.Kind) != "" {
 		inj = []string{causeLabel(o.Kind)}
 	}
-	ob := fmt.Sprintf("(mkObs1 %s %s %s %s %s %s)", call, body, hk.CoqBool(o.ConnClosed), hk.CoqNat(o.Idle),
+	// the connection of a dial that never became a persistConn is not the exchange's connection (its
+	// closing is judged by the oracle)
+	connClosed := o.ConnClosed && !(sp.HSTimeout && len(o.Post) > 0 && o.Post[0] == "XDialDone false")
+	ob := fmt.Sprintf("(mkObs1 %s %s %s %s %s %s)", call, body, hk.CoqBool(connClosed), hk.CoqNat(o.Idle),
 		hk.CoqBool(o.ReqBody), hk.CoqBool(o.ReqBodyClosed))
 	return fmt.Sprintf("H1Case %s %s %s %s %s %s %s %s", cfg, hk.CoqBool(sp.Auto), hk.CoqBool(realTimer(o.Kind)),
 		coqLabels(pre), coqLabels(o.RacyLabels), coqLabels(inj), coqLabels(o.Post), ob)
@@ -259,6 +262,12 @@ func judge(r *hk.Run, o obs) {
 	if !o.Returned {
 		fail("hang", fmt.Sprintf("the call / pending body read did not return within %v of the injection", returnBound))
 		return
+	}
+	if o.Spec.HSTimeout && o.Kind == "none" {
+		// nobody ended the request: the handshake timeout must, with a timeout error
+		if o.Call == "resp" || !o.CallTimeout {
+			fail("no-handshake-timeout", "a TLS handshake that is never answered did not end the call with a timeout error: "+o.Call+" "+o.CallErr)
+		}
 	}
 	inflight := !o.Complete && o.Kind != "none"
 	// a real timer may fire before a slow run has played all steps: at the last position either the
@@ -294,10 +303,14 @@ func judge(r *hk.Run, o obs) {
 		if o.Call == "resp" && o.Body != "none" && o.Body != "eof" && !bodyIdentifies(o) {
 			fail("wrong-error", "body read failed with an error that does not identify the cancellation/timeout: "+o.BodyErr)
 		}
+	case o.Spec.HSTimeout:
 	default:
 		if o.Call != "resp" || (o.Body != "eof" && o.Body != "none") {
 			fail("spurious-error", "the exchange had completed (or nothing was injected) but an error was reported: "+o.CallErr+o.BodyErr)
 		}
+	}
+	if o.Spec.HSTimeout && o.Pos >= 2 && !o.ConnClosed {
+		fail("dial-never-ends", "the connection whose TLS handshake was never answered was still open long after TLSHandshakeTimeout: the detached dial did not end")
 	}
 	if o.Body == "short" {
 		fail("short-body", "the body ended early without an error: "+o.BodyErr)
@@ -567,4 +580,38 @@ func recordShare(r *hk.Run, o shareObs) {
 		coq = fmt.Sprintf("ShareCase %s %s", c, hk.CoqBool(o.B == "nil"))
 	}
 	r.Add(hk.Case{Coq: coq, Desc: map[string]interface{}{"kind": "share", "obs": o}}, "share|"+o.Spec.Name, true)
+}
+
+func recordBackoff(r *hk.Run, o backoffObs) {
+	where := "backoff:" + o.Spec.Name + ":" + o.Spec.Kind
+	fail := func(sig, what string) { r.Fail(hk.Failure{Sig: sig + ":" + where, What: what, Input: o}) }
+	if o.Harness != "" {
+		fail("harness", "the scripted scenario could not be played: "+o.Harness)
+	} else {
+		if !o.Returned {
+			fail("hang", fmt.Sprintf("the context ended while the HTTP/2 transport slept %.0f s before re-sending a refused request: the call did not return within %d ms (it ended as %q after %d ms or later)", o.Sleep, o.BoundMs, o.Call, o.ReturnMs))
+		}
+		want := map[string]string{"cancel": "cause:canceled", "deadline": "cause:deadline"}[o.Spec.Kind]
+		if o.Returned && o.Call != want {
+			fail("wrong-error", "the call did not fail with an error identifying the cancellation: "+o.Call+" "+o.CallErr)
+		}
+		if o.SeenEnd > o.SeenAt {
+			fail("retry-after-cancel", fmt.Sprintf("%d further attempt(s) reached the peer after the context had ended", o.SeenEnd-o.SeenAt))
+		}
+		if len(o.Leaked) > 0 {
+			fail("leak", "library goroutines alive afterwards: "+strings.Join(o.Leaked, " | "))
+		}
+		if !o.FollowOK {
+			fail("follow-up", "a follow-up request on the same client failed: "+o.FollowEr)
+		}
+	}
+	r.Count("backoff:" + o.Spec.Kind)
+	coq := ""
+	if o.Harness == "" && o.Returned {
+		if e, ok := coqErr(o.Call); ok {
+			c := map[string]string{"cancel": "CCanceled", "deadline": "CDeadline"}[o.Spec.Kind]
+			coq = fmt.Sprintf("BackoffCase %s (OErr %s) %s", coqLabels(append(append([]string{}, o.Events...), "TCancel "+c)), e, hk.CoqNat(o.SeenEnd))
+		}
+	}
+	r.Add(hk.Case{Coq: coq, Desc: map[string]interface{}{"kind": "backoff", "obs": o}}, "backoff|"+o.Spec.Name+"|"+o.Spec.Kind, true)
 }
